@@ -73,6 +73,12 @@ class Seq:
         return self.map_rows(lambda rows, n: [[c * x for x in r] for r in rows])
 
 
+class Ramp:
+    """np.arange(k) (entries sign * (i + offset)); its length is that of the sequence it multiplies"""
+    def __init__(self, sign=1, offset=0):
+        self.sign, self.offset = sign, offset
+
+
 def _need_plain(s, what):
     if s.out_perm:
         raise Unsupported(f"{what} after the result was re-indexed by the sorting permutation")
@@ -203,6 +209,8 @@ class SeqInterp:
             return -v
         if isinstance(v, Seq):
             return v.scale(Fr(-1))
+        if isinstance(v, Ramp):
+            return Ramp(-v.sign, v.offset)
         raise Unsupported("negation of a non-sequence")
 
     def binop(self, node):
@@ -226,6 +234,10 @@ class SeqInterp:
             if isinstance(b, Seq) and a == 0:
                 return b if isinstance(op, ast.Add) else self.neg(b)
             raise Unsupported("a sequence plus a non-zero constant is not linear")
+        if isinstance(op, ast.Mult) and ((isinstance(a, Seq) and isinstance(b, Ramp)) or (isinstance(b, Seq) and isinstance(a, Ramp))):
+            sq, rp = (a, b) if isinstance(a, Seq) else (b, a)
+            _need_plain(sq, "an element-wise product with np.arange")
+            return sq.map_rows(lambda rows, n: [[Fr(rp.sign * (i + rp.offset)) * x for x in r] for i, r in enumerate(rows)])
         if isinstance(op, ast.Mult):
             if isinstance(a, Seq) and isinstance(b, Fr):
                 return a.scale(b)
@@ -364,6 +376,10 @@ class SeqInterp:
             return v.map_rows(lambda rows, n: rows[::-1])
         if name in ("np.negative",):
             return self.neg(self.ev(args[0]))
+        if name == "np.arange" and len(args) == 1 and not kw:
+            return Ramp(1, 0)
+        if name == "np.arange" and len(args) == 2 and not kw and _int(args[0]) is not None:
+            return Ramp(1, _int(args[0]))
         if name in ("np.reshape", "np.copy", "np.ravel", "np.flatten", "np.squeeze", "np.asarray", "np.array", "np.expand_dims", "np.atleast_2d", "np.astype"):
             v = self.ev(args[0])
             if isinstance(v, Seq):
